@@ -339,8 +339,10 @@ def scripts(tier, seed, scale=1):
                             lines += ["%s push %s" % (pre, gen.hexs([0x61 + f] * (f + 1))), pre + " term"]
                         if part:
                             lines.append("%s push %s" % (pre, gen.hexs(part)))
-                            if via == "enc" and rd.random() < 0.3:
-                                lines.append("enc nullwin term")
+                            if via == "enc":
+                                lines += ["enc nullwin term", "enc nullwin 61"]
+                        elif via == "enc" and nfin:
+                            lines += ["enc nullwin 61", "enc nullwin term"]
                         lines += ["%s del %d" % (pre, k), "%s push 64" % pre, pre + " term", pre + " check",
                                   "%s del 1" % pre, pre + " term", pre + " check"]
                         out.append(("del:%s:%d:%d:%d:%s" % (codec, pi, nfin, k, via), lines))
